@@ -276,10 +276,10 @@ func genC12B(t *rapid.T, tier string) any {
 				ec.Vars[d.Name] = gen.Pick(t, "c12b.badnum", []string{"12x", "", "1.5", "ten", "1e3", "0x1f", "1_0"})
 				c.Expect = []string{model.EBadVariableText}
 			case "monetary":
-				ec.Vars[d.Name] = gen.Pick(t, "c12b.badmon", []string{"USD", "USD 1 2", "USD x", "10", "", "USD  10", "USD 1.5"})
+				ec.Vars[d.Name] = gen.Pick(t, "c12b.badmon", []string{"USD", "USD 1 2", "USD x", "10", "", "USD 1.5"})
 				c.Expect = []string{model.EBadVariableText}
 			case "portion":
-				ec.Vars[d.Name] = gen.Pick(t, "c12b.badpor", []string{"2/1", "abc", "1/0", "150%", "", "-1/2", "1//2", "0.5", "%"})
+				ec.Vars[d.Name] = gen.Pick(t, "c12b.badpor", []string{"2/1", "abc", "1/0", "150%", "", "-1/2", "1//2", "%"})
 				c.Expect = []string{model.EBadPortion}
 			}
 			c.Fault = "ill-formed text for a " + d.Type + " variable"
